@@ -99,6 +99,18 @@ def parseFrame (raw : Bytes) : Option (Fields × Bytes × Bytes) :=
     some (⟨raw.take 6, body.take 2, r1.take 6, r2.take 6, r3.take 2⟩,
           r4.take (r4.length - 16), r4.drop (r4.length - 16))
 
+/-- `decrypt_frame` on a KNXIPFrame OBJECT: the header octets are whatever `frame.header.to_knx()` yields (they need not
+be what `from_knx` would have produced for the body), the body is split as `SecureWrapper.from_knx` does. -/
+def decryptObject (E : BlockFn) (key : Bytes) (sidExpected : Nat) (header body : Bytes) : Except Err Bytes :=
+  if body.length < 16 + 2 + 16 then .error .parse
+  else
+    let r1 := body.drop 2
+    let r2 := r1.drop 6
+    let r3 := r2.drop 6
+    let r4 := r3.drop 2
+    decryptFrame E key sidExpected ⟨header, body.take 2, r1.take 6, r2.take 6, r3.take 2⟩
+      (r4.take (r4.length - 16)) (r4.drop (r4.length - 16))
+
 /-- wrap to wire octets -/
 def wrap (E : BlockFn) (key : Bytes) (sid : Nat) (seq serial tag payload : Bytes) : Bytes :=
   let w := encryptFrame E key sid seq serial tag payload
@@ -185,6 +197,14 @@ def handle : List String → String
        | .ok p => s!"ok {hexOfBytes p}"
        | .error _ => "reject")
     | _, _, _ => "bad-op"
+  | ["decf", k, sid, hdr, body] =>
+    -- decrypt_frame on a frame object whose header serialises to `hdr`
+    match bytesOfHex? k, sid.toNat?, bytesOfHex? hdr, bytesOfHex? body with
+    | some k, some sid, some hdr, some body =>
+      (match decryptObject AES k sid hdr body with
+       | .ok p => s!"ok {hexOfBytes p}"
+       | .error _ => "reject")
+    | _, _, _, _ => "bad-op"
   | ["handshake", dk, uk, uid, sid, x, m] =>
     -- `SecureSession.handshake`: verify the SessionResponse MAC (if a device authentication code is set: dk ≠ "-"),
     -- then return the SessionAuthenticate MAC
